@@ -306,6 +306,27 @@ def exec (O : Oracle) (F : Flags) (op : Op) : Route → Reg → Reg → Out
 
 def fuelBound : Nat := 16
 
+/-- the points the specialised sampler of `PointSetRegion.intersect` chooses from:
+    `[p for p in possibles if o._trueContainsPoint(p)]` (`possibles` = all points, or those within the
+    circumcircle of `o`, which contains `o`) -/
+def ptsSamplerSupport (F : Flags) (A B : Reg) : List Pt := A.points.filter (fun p => trueContains F B p)
+
+/-- `Workspace.<method>` (workspaces.py): does the method hand the call on to `self.region.<method>` with the
+    same arguments, in order, and return its result? -/
+structure Delegation where
+  method : String
+  forwards : Bool
+deriving DecidableEq, Repr
+
+/-- the region interface a `Workspace` must hand on for the double dispatch and the point queries to reach
+    the wrapped region -/
+def Delegation.required : List String :=
+  ["intersect", "intersects", "difference", "union", "containsPoint", "containsObject", "containsRegionInner",
+   "distanceTo", "projectVector", "uniformPointInner", "AABB", "dimensionality", "size"]
+
+def Delegation.allForward (ds : List Delegation) : Bool :=
+  Delegation.required.all fun m => ds.any fun d => d.method == m && d.forwards
+
 /-- the model of `A.op(B)` -/
 def dispatch (T : Table) (O : Oracle) (F : Flags) (op : Op) (A B : Reg) : Out :=
   exec O F op (routeOf T fuelBound op (ctlOf A B)) A B
